@@ -16,7 +16,7 @@ import warnings
 
 import numpy as np
 
-from harness import core, tlc, fcsgen
+from harness import core, tlc, fcsgen, loadform
 from harness.core import run_driver
 
 import FlowCal.io  # noqa
@@ -65,12 +65,17 @@ def main(chk, replay=None):
                 a0 = draw(st.one_of(st.sampled_from([4.0, 4.5, 5.0, 2.5, 8.0, 0.5]),
                                     st.floats(0.5, 8.0).map(lambda v: round(v, 3))))
                 a1 = draw(st.sampled_from([1.0, 0.0, 0.5, 2.0, 0.1]))
-                pne = '%r,%r' % (a0, a1)
+                # the same numbers as different programs write them (repr, fixed six decimals, shortest, exponent form)
+                fmt = draw(st.sampled_from(['%r', '%.6f', '%g', '%.3E', '%.2f' if round(a0, 2) == a0 else '%r']))
+                pne = (fmt + draw(st.sampled_from([',', ', '])) + fmt) % (a0, a1)
                 gain = None
+                law = (a0, a1 if a1 != 0 else 1.0)       # documented: a zero offset of a log amplifier is read as 1
             else:
-                pne = '0,0'
-                gain = draw(st.sampled_from([None, '1', '2.5', '4', '3']))
-            chans.append(dict(kind=kind, r=r, pne=pne, gain=gain))
+                pne = draw(st.sampled_from(['0,0', '0.0,0.0', '0.000000,0.000000', '0,0.0']))
+                g = draw(st.sampled_from([None, 1.0, 2.5, 4.0, 3.0]))
+                gain = None if g is None else draw(st.sampled_from(['%g', '%r', '%.6f', '%.1E'])) % g
+                law = g or 1.0
+            chans.append(dict(kind=kind, r=r, pne=pne, gain=gain, law=law))
         op = draw(st.sampled_from(['to_rfi', 'to_rfi', 'to_mef']))
         cols = draw(st.lists(st.integers(1, 3), min_size=1, max_size=3, unique=True))
         m = draw(st.floats(0.85, 1.25).map(lambda v: round(v, 4)))
@@ -104,7 +109,7 @@ def main(chk, replay=None):
                             png=[c['gain'] for c in case['chans']])
         with warnings.catch_warnings():
             warnings.simplefilter('ignore')
-            x0 = FlowCal.io.FCSData(path)
+            x0 = FlowCal.io.FCSData(loadform.arg(path))
             cols0 = [c - 1 for c in case['cols']]
             if case['op'] == 'to_rfi':
                 x = x0
@@ -112,12 +117,12 @@ def main(chk, replay=None):
                 y = FlowCal.transform.to_rfi(x, req)
                 fns = {}
                 for c in cols0:
-                    at = x.amplification_type(c)
-                    if at[0] == 0:
-                        g = x.amplifier_gain(c) or 1.0
-                        one = (lambda g: (lambda v: np.asarray(v, dtype=np.float64) / g))(g)
+                    # the law the FILE records (the numbers drawn above), not what the library says it read
+                    ch = case['chans'][c]
+                    if ch['kind'] == 'lin':
+                        one = (lambda g: (lambda v: np.asarray(v, dtype=np.float64) / g))(ch['law'])
                     else:
-                        one = (lambda a0, a1, r: (lambda v: a1 * 10.0 ** (a0 * np.asarray(v, dtype=np.float64) / r)))(at[0], at[1], x.resolution(c))
+                        one = (lambda a0, a1, r: (lambda v: a1 * 10.0 ** (a0 * np.asarray(v, dtype=np.float64) / r)))(ch['law'][0], ch['law'][1], ch['r'])
                     fns[c] = (lambda f: (lambda v: f(f(v))))(one) if req.count(c) == 2 else one
             else:
                 x = FlowCal.transform.to_rfi(x0, [0, 1, 2])       # calibrate RFI data, as the workflow does
